@@ -16,6 +16,7 @@ import (
 
 	"github.com/bits-and-blooms/bitset"
 	"github.com/coredhcp/coredhcp/plugins/allocators"
+	"github.com/coredhcp/coredhcp/verifhook"
 )
 
 var (
@@ -80,6 +81,9 @@ func (a *IPv4Allocator) Allocate(hint net.IPNet) (n net.IPNet, err error) {
 		next = avail
 	}
 
+	if verifhook.On {
+		verifhook.Point("alloc4.set", &a.l, next)
+	}
 	a.bitmap.Set(next)
 	n.IP = a.toIP(uint32(next))
 	return
@@ -97,6 +101,9 @@ func (a *IPv4Allocator) Free(n net.IPNet) error {
 
 	if !a.bitmap.Test(uint(offset)) {
 		return &allocators.ErrDoubleFree{Loc: n}
+	}
+	if verifhook.On {
+		verifhook.Point("alloc4.clear", &a.l, offset)
 	}
 	a.bitmap.Clear(offset)
 	return nil
